@@ -202,13 +202,16 @@ func runChain(sh chainShape, table map[byte]refmodel.Behaviour) (obs chainObs, b
 	g, p, rt := sh.Split[0], sh.Split[1], sh.Split[2]
 	r := rux.New()
 	routePath, reqPath := "/x", "/x"
-	if strings.Contains(sh.Hooks, "C") || strings.Contains(sh.Hooks, "K") {
+	if strings.Contains(sh.Hooks, "C") || strings.Contains(sh.Hooks, "K") || strings.Contains(sh.Hooks, "M") {
 		r = rux.New(rux.CachingWithNum(4))
 		routePath, reqPath = "/x/{id}", "/x/7"
 	}
 	method := "GET"
 	if strings.Contains(sh.Hooks, "K") {
 		method = "HEAD"
+	}
+	if strings.Contains(sh.Hooks, "M") {
+		method = "PUT"
 	}
 	if strings.HasPrefix(sh.Via, "resource:") {
 		parts := strings.Split(sh.Via, ":")
@@ -369,6 +372,21 @@ func runChain(sh chainShape, table map[byte]refmodel.Behaviour) (obs chainObs, b
 				r.POST("/siblingV", noop, list...).Use(noop)
 				return
 			}
+			if strings.Contains(sh.Hooks, "N") {
+				// registered for all methods with Any from a caller-owned slice which the caller overwrites afterwards
+				list := ownedCopy(rm)
+				r.Any(routePath, hs[n-1], list...)
+				for i := range list {
+					list[i] = func(c *rux.Context) { log = append(log, refmodel.Event{H: 300, Kind: "callers-later-slice-content"}) }
+				}
+				return
+			}
+			if strings.Contains(sh.Hooks, "M") {
+				other := func(c *rux.Context) { log = append(log, refmodel.Event{H: 200, Kind: "foreign-post-put-route"}) }
+				r.Add(routePath, hs[n-1], "PUT").Use(rm...)
+				r.Add("/{sec}/{id}", other, "POST", "PUT").Use(other, other)
+				return
+			}
 			if strings.Contains(sh.Hooks, "K") {
 				other := func(c *rux.Context) { log = append(log, refmodel.Event{H: 200, Kind: "foreign-get-route"}) }
 				r.GET(routePath, other, other, other)
@@ -433,6 +451,10 @@ func runChain(sh chainShape, table map[byte]refmodel.Behaviour) (obs chainObs, b
 	if strings.Contains(sh.Hooks, "K") {
 		_ = try(func() { r.ServeHTTP(httptest.NewRecorder(), httptest.NewRequest("GET", reqPath, nil)) })
 		_ = try(func() { r.ServeHTTP(httptest.NewRecorder(), httptest.NewRequest("HEAD", reqPath, nil)) })
+		log = log[:0]
+	}
+	if strings.Contains(sh.Hooks, "M") {
+		_ = try(func() { r.ServeHTTP(httptest.NewRecorder(), httptest.NewRequest("POST", reqPath, nil)) })
 		log = log[:0]
 	}
 	if strings.Contains(sh.Hooks, "X") {
